@@ -142,8 +142,10 @@ pub fn to_track_config(t: &TrackCfg) -> mp4::TrackConfig {
 pub struct MuxRun {
     /// results[0] = write_start, results[i+1] = ops[i]
     pub results: Vec<CallResult>,
-    /// stream position after the last call that ran (None if write_start failed)
     pub ended_ok: bool,
+    /// stream position of the writer when it was given back (the end of the produced bytes;
+    /// the sink may hold older bytes beyond it)
+    pub end_pos: Option<u64>,
 }
 
 fn res<T>(r: Result<mp4::Result<T>, PanicInfo>) -> (CallResult, Option<T>) {
@@ -188,7 +190,7 @@ pub fn run_mux(sc: &MuxScenario, sim: &SimRef, skip: Option<&[bool]>) -> MuxRun 
     let mut ended_ok = false;
     let Some(mut w) = w else {
         results.resize(n, CallResult::NotRun);
-        return MuxRun { results, ended_ok };
+        return MuxRun { results, ended_ok, end_pos: None };
     };
     let mut cache = PayloadCache::new();
     let mut dead = false;
@@ -224,6 +226,6 @@ pub fn run_mux(sc: &MuxScenario, sim: &SimRef, skip: Option<&[bool]>) -> MuxRun 
         }
         results.push(r);
     }
-    drop(w);
-    MuxRun { results, ended_ok }
+    let end_pos = if dead { None } else { Some(w.into_writer().pos) };
+    MuxRun { results, ended_ok, end_pos }
 }
